@@ -228,3 +228,22 @@ Theorem C03_multiview_tried_order : forall f m rq,
   /\ mv_call rq (get_views m rq) = option_map r_tag (find (qualifies rq) (map e_view (get_views m rq))).
 Proof. exact multiview_tried_order. Qed.
 Print Assumptions C03_multiview_tried_order.
+
+(* Notted.phash: the mark in front, so not_(P) never hashes like P (P with a real phash) ... *)
+Theorem C03_notted_phash_differs : forall p,
+  nonempty (pred_phash p) = true -> pred_phash (PNot p) <> pred_phash p.
+Proof. exact notted_phash_differs. Qed.
+Print Assumptions C03_notted_phash_differs.
+
+(* ... and two views of one slot whose predicate lists differ only by not_() around one predicate are
+   distinct registrations: the distinct-keys hypothesis of C03_lookup_winner_partial holds of the pair *)
+Theorem C03_notted_sibling_distinct_keys : forall a b l1 l2 p,
+  reg_wf a -> reg_wf b -> r_preds a = l1 ++ p :: l2 -> r_preds b = l1 ++ PNot p :: l2 ->
+  nonempty (pred_phash p) = true -> NoDup (map key [a; b]).
+Proof. exact notted_sibling_distinct_keys. Qed.
+Print Assumptions C03_notted_sibling_distinct_keys.
+
+(* fact: make takes phash() from, and keeps, the final (possibly Notted) predicate object *)
+Theorem C03_phash_of_final_pred : phash_of_final_pred = true.
+Proof. exact phash_of_final_pred_ok. Qed.
+Print Assumptions C03_phash_of_final_pred.
